@@ -317,7 +317,9 @@ pub fn mutate(src: &str, rng: &mut Rng) -> String {
 /// `depth` nested `mod m { … }` / `fn f() { … }` / blocks around a small body.
 pub fn nested_program(rng: &mut Rng, depth: usize) -> String {
     let mut s = String::new();
-    let kinds: Vec<usize> = (0..depth).map(|_| rng.below(5)).collect();
+    let mode = rng.below(3);
+    let switch = rng.below(depth + 1);
+    let kinds: Vec<usize> = (0..depth).map(|d| match mode { 0 => 0, 1 => if d < switch { 0 } else { 4 }, _ => rng.below(5) }).collect();
     let mut in_fn = false;
     let mut closers = vec![];
     for (d, k) in kinds.iter().enumerate() {
@@ -339,9 +341,9 @@ pub fn nested_program(rng: &mut Rng, depth: usize) -> String {
         }
     }
     let body = if in_fn {
-        *rng.pick(&["// comment\nlet x = 1;\n", "/* block */ foo(a, b, c);\n", "let long_name = some_function(argument_one, argument_two, argument_three);\n", "x.iter().map(|y| y + 1).filter(|z| *z > 2).collect::<Vec<_>>();\n", ""])
+        *rng.pick(&["// comment\nlet x = 1;\n", "// only a comment\n", "/* block */\n", "/* block */ foo(a, b, c);\n", "let long_name = some_function(argument_one, argument_two, argument_three);\n", "x.iter().map(|y| y + 1).filter(|z| *z > 2).collect::<Vec<_>>();\n", ""])
     } else {
-        *rng.pick(&["// comment\nuse a::b;\n", "/* c */ struct S { a: u32, b: u32 }\n", "// only a comment\n", "fn g(a: u32, b: u32) -> u32 { a + b }\n", ""])
+        *rng.pick(&["// comment\nuse a::b;\n", "/* c */ struct S { a: u32, b: u32 }\n", "// only a comment\n", "/* only a block comment */\n", "// a comment that is fairly long so that it has to be wrapped somewhere\nfn g() {}\n", "fn g(a: u32, b: u32) -> u32 { a + b }\n", ""])
     };
     s.push_str(body);
     for c in closers.iter().rev() {
